@@ -49,6 +49,7 @@ class Exec:
         self.solver.set('timeout', timeout_ms)
         self.solver.set('max_memory', max_memory_mb)
         self.solver.add(self.pre)
+        self._model_src = self.solver
         self.nq = 0
         self.n_unknown = 0
         self.query_s = 0.0
@@ -61,10 +62,58 @@ class Exec:
         t0 = _time.time()
         self.nq += 1
         r = self.solver.check(*assumptions)
+        self._model_src = self.solver
+        if r == z3.unknown and assumptions:
+            r = self._retry(assumptions)
         self.query_s += _time.time() - t0
         if r == z3.unknown:
             self.n_unknown += 1
         return r
+
+    def _retry(self, assumptions):
+        """the incremental solver gave up: (1) a fresh solver on the cone of influence of the
+        question (dropping unrelated assertions is sound for `unsat`), (2) a fresh solver on
+        everything. nlsat is far more reliable non-incrementally and on few constraints."""
+        def names(t, acc):
+            stack, seen = [t], set()
+            while stack:
+                u = stack.pop()
+                if u.get_id() in seen:
+                    continue
+                seen.add(u.get_id())
+                if z3.is_const(u) and u.decl().kind() == z3.Z3_OP_UNINTERPRETED:
+                    acc.add(str(u))
+                else:
+                    stack += u.children()
+            return acc
+        asserts = list(self.solver.assertions())
+        want = set()
+        for a in assumptions:
+            names(a, want)
+        vs = [(a, names(a, set())) for a in asserts]
+        changed = True
+        used = [False] * len(vs)
+        while changed:
+            changed = False
+            for i, (a, v) in enumerate(vs):
+                if not used[i] and v & want and len(v) <= 6:
+                    used[i] = True
+                    if not v <= want:
+                        want |= v
+                        changed = True
+        cone = [a for (a, _v), u in zip(vs, used) if u]
+        for cs, tmo in ((cone, 8000), (asserts, min(self.timeout_ms, 20000))):
+            sv = z3.Solver()
+            sv.set('timeout', tmo)
+            sv.add(cs)
+            sv.add(list(assumptions))
+            r = sv.check()
+            if r == z3.unsat or (r == z3.sat and cs is asserts):
+                if r == z3.sat:
+                    self._model = None
+                    self._model_src = sv
+                return r
+        return z3.unknown
 
     def add(self, c):
         """Add a side constraint for the rest of the current path (definitional constraints of
@@ -94,7 +143,7 @@ class Exec:
     def model_for(self, cond=None):
         r = self._check(*( [cond] if cond is not None else [] ))
         if r == z3.sat:
-            return self.solver.model()
+            return self._model_src.model()
         if r == z3.unknown:
             raise Abort('UNKNOWN')
         return None
@@ -129,14 +178,14 @@ class Exec:
                     raise Abort('UNKNOWN')
                 can_t = r == z3.sat
                 if can_t:
-                    self._model = self.solver.model()
+                    self._model = self._model_src.model()
             if can_f is None:
                 r = self._check(z3.Not(cond))
                 if r == z3.unknown:
                     raise Abort('UNKNOWN')
                 can_f = r == z3.sat
                 if can_f and not can_t:
-                    self._model = self.solver.model()
+                    self._model = self._model_src.model()
             if can_t and can_f:
                 d = True
                 self.pending.append(self.decisions + [False])
